@@ -356,6 +356,9 @@ def check_wrapper(ctx, u, rec):
                 state['cur'] = ('S', term(stored_expr(s0)))
             elif k == 'BinaryOperator' and s0.get('opcode') == '=' and _is_value(s0['inner'][0]):
                 state['cur'] = term(s0['inner'][1])
+            elif k == 'CompoundAssignOperator' and s0.get('opcode') in ('&=', '|=', '^=') and _is_value(s0['inner'][0]) and is_store_of(strip(s0['inner'][1])) is not None:
+                # Store is a bit permutation: value OP= Store(t)  ==  value = Store(Load(value) OP t)
+                state['cur'] = ('S', ('bin', s0['opcode'][0], simp(('L', state['cur'])), term(is_store_of(strip(s0['inner'][1])))))
             elif k == 'ReturnStmt':
                 ret = term(kids(s0)[0]) if kids(s0) else None
                 break
@@ -384,6 +387,10 @@ def check_wrapper(ctx, u, rec):
                         role = 'written from OnStoreSt::fn'
                     elif nm == 'store_raw' and (ref_decl(rhs) or {}).get('kind') == 'ParmVarDecl':
                         role = 'store_raw'
+                elif p is not None and p.get('kind') == 'CompoundAssignOperator' and p.get('opcode') in ('&=', '|=', '^=') and strip(p['inner'][0]) is x and is_store_of(strip(p['inner'][1])) is not None:
+                    # the store conversion is a permutation of bits (byte swap or identity), and & | ^ act on
+                    # each bit separately: value OP= Store(m) is Store(Load(value) OP m)
+                    role = 'bitwise update in the stored domain with a converted operand'
                 elif p is not None and p.get('kind') == 'CallExpr' and is_load(p):
                     role = 'read through OnLoadSt::fn'
                 elif nm == 'load_raw' and p is not None and p.get('kind') == 'ReturnStmt':
